@@ -10,6 +10,7 @@ import itertools
 import z3
 
 SOLVER_TIMEOUT_MS = 10000
+LAST_LINE = None
 
 
 class Unsupported(Exception):
